@@ -1,6 +1,6 @@
 (* Properties_C16.v — the theorems that decide property C16 on the model, each stated in full and closed by
    `exact <lemma>`; the lemmas live in the Proofs_*.v files.  Nothing else belongs in this file. *)
-From Theo Require Import Base VMModel VMSpec VMStatements VMCheck VMCheckStatements Proofs_VMCheck GenWfStatements Tokens Errors MacroExtract Parser GenModel CompileStatements Proofs_GenWf RefHaltStatements RefSem SemStatements Proofs_RefHalt Stage5Statements Regex Lexer Scan Grammar LR MacroApply Compile RefSemChk C01Statements C01Stages C01Stages3 C01Stages4 C07Statements Gen_Lexer Gen_Consts Proofs_Stage5.
+From Theo Require Import Base VMModel VMSpec VMStatements VMCheck VMCheckStatements Proofs_VMCheck GenWfStatements Tokens Errors MacroExtract Parser GenModel CompileStatements Proofs_GenWf RefHaltStatements RefSem SemStatements Proofs_RefHalt Stage5Statements Regex Lexer Scan Grammar LR MacroApply Compile RefSemChk C01Statements C01Stages C01Stages3 C01Stages4 C07Statements Gen_Lexer Gen_Consts Proofs_Stage5 Stage6Statements NamesStatements Proofs_C16any.
 Local Open Scope Z_scope.
 Local Open Scope Z_scope.
 
@@ -56,3 +56,15 @@ Theorem C16_vm_loop_halts :
     exists k s, vm_run k (init (cr_prog c)) = Ok s /\ isDone s = Ok true.
 Proof. exact C16_vm_loop_halts_proof. Qed.
 Print Assumptions C16_vm_loop_halts.
+
+Theorem C16_vm_loop_halts_any :
+  forall files main c p root rs,
+    Forall (fun kv => lexable (fst kv) = true) files ->
+    compile files main = Ok c -> cr_ok c = true ->
+    parse files main = Ok p -> pr_root p = Some root ->
+    RefHaltStatements.loop_only root = true ->
+    abstract_source (Some root) = Some rs ->
+    (forall fuel, run_ref_chk fuel rs <> OBad) ->
+    exists k s, vm_run k (init (cr_prog c)) = Ok s /\ isDone s = Ok true.
+Proof. exact C16_vm_loop_halts_any_proof. Qed.
+Print Assumptions C16_vm_loop_halts_any.
